@@ -111,6 +111,14 @@ def run_probe_case(ctx, case, mode):
             return False
         return True
 
+    def cb_label(key):
+        """callback:<kind>[@dependant]: a preparer that belongs to an attribute the probe does not address runs only because
+        that attribute is being restored as an invalidated dependant."""
+        kind, name = key[0], key[1] if len(key) > 1 else None
+        if kind in ("prepare", "prepare_item") and name is not None and name not in _probe_attrs(world, probe):
+            return f"callback:{kind}@dependant"
+        return f"callback:{kind}"
+
     nat = attempt(world, hist, probe)
     if nat is None:
         ctx.count("not_applicable")
@@ -138,7 +146,7 @@ def run_probe_case(ctx, case, mode):
         ctx.count(f"callback_fault:{key[0]}:{res['outcome']}")
         if res["outcome"] == "raise" and res["injected"]:
             nontrivial = nontrivial or mode == "c04"
-        if not verdict(res, f"callback:{key[0]}", fault):
+        if not verdict(res, cb_label(key), fault):
             return
     # --- line faults (C01 only): abort the helper at executed library lines
     if mode == "c01" and nat["lines"]:
@@ -159,11 +167,30 @@ def run_probe_case(ctx, case, mode):
         res = attempt(world, hist, probe, case["fault"])
         if res is not None:
             f = case["fault"]
-            label = f"callback:{f[1][0]}" if f[0] == "callback" else "line@" + (res["where"].split(":")[-1] if res["where"] else "?")
+            label = cb_label(f[1]) if f[0] == "callback" else "line@" + (res["where"].split(":")[-1] if res["where"] else "?")
             if not verdict(res, label, f):
                 return
     ctx.count("fault_runs", n_faults)
     ctx.case({k: v for k, v in case.items() if k != "fault"}, nontrivial)
+
+
+def _probe_attrs(world, probe):
+    """Names of the attributes a probe addresses directly (through its method name, its keywords or the assignment target)."""
+    out = set()
+    if probe["t"] in ("set", "del"):
+        return {probe["attr"]}
+    if probe["t"] != "call":
+        return out
+    out.update(k for k in probe["k"] if not k.startswith("_"))
+    m = probe["m"]
+    if "_" in m:
+        rest = m.split("_", 1)[1]
+        for name in world.all_attrs.get(world.desc["instance_class"], {}):
+            if rest == name or grammar.SINGULAR.get(name) == rest:
+                out.add(name)
+    else:
+        out.update(world.all_attrs.get(world.desc["instance_class"], {}))  # update / transform / reset: any attribute
+    return out
 
 
 def line_plan(tier, case, total):
